@@ -103,12 +103,23 @@ def body(case, ctx, tmp):
         stop_at = int(rng.integers(1, max(2, total_events - 1)))
     rec = trainrec.recorder_callback(log, digest_params=False, extra=on_ev, stop_at=stop_at)
 
+    stale = []
+
     def mk_metric(name):
         def f(nn_state, **k):
             v = float(sum(float(p.data.sum()) for p in nn_state.rbm_am.parameters())) + {"a": 0.0, "b": 1.0, "c": 2.0}[name]
             if name == "b":
                 v = np.float64(v)
             rec_metric[name].append((cur["epoch"], v))
+            # evaluated on the parameters the model has at the END of this epoch (snapshot taken at the same event by the
+            # first callback in the list), not on those before the epoch's last update
+            sn_ = snaps.get(cur["epoch"])
+            if sn_ is not None:
+                exp_ = float(sum(float(t_.sum()) for k_, t_ in sn_.items() if k_.startswith("rbm_am."))) + {"a": 0.0, "b": 1.0, "c": 2.0}[name]
+                ctx.count("metric_values_vs_epoch_end_parameters")
+                if abs(float(v) - exp_) > 1e-10 * (1 + abs(exp_)) and not stale:
+                    stale.append(f"metric {name!r} at epoch {cur['epoch']} saw parameters giving {float(v)!r}; the parameters at the end of that "
+                                 f"epoch give {exp_!r}")
             return v
         return f
 
@@ -205,6 +216,9 @@ def body(case, ctx, tmp):
         check_all(ctx, tags, (ran2 if clear else ran_all), (pm1, pm2, po, psv, plg), ev1, ev2, evo, rec_metric, rec_obs, rec_log, snaps,
                   folder, md_mode, md_obj, save_initial, csv1, csvo, st, use_gen, first_run=False, kind=kind, csv_epochs=ran_all,
                   log_epochs=ran_all)
+    if stale:
+        ctx.violation("metric-records", "an evaluator was run on parameters that are not those at the end of its epoch: " + stale[0],
+                      tags=dict(tags, cb="MetricEvaluator", stale_parameters=True))
     nev = len(rec_metric["a"]) + len(rec_obs)
     if nev >= 2 and len({pm1, pm2, po, psv, plg}) >= 2:
         ctx.mark_nontrivial(monitors.digest([i, pm1, pm2, po, psv, plg, start, epochs, stop_at, md_mode, kind, two_runs, clear]))
@@ -234,6 +248,19 @@ def check_all(ctx, tags, ran, periods, ev1, ev2, evo, rec_metric, rec_obs, rec_l
                 return
         ctx.count("accessor_checks")
         bad = []
+        # arrays handed out are the caller's: modifying them must not change the record
+        for nm in names:
+            if want_ep:
+                arr_ = getattr(ev, nm)
+                try:
+                    arr_[...] = -12345.0
+                except Exception:  # noqa: BLE001  (read-only array: fine)
+                    pass
+                eps_ = ev.epochs
+                try:
+                    eps_[...] = -7
+                except Exception:  # noqa: BLE001
+                    pass
         if len(ev) != len(want_ep):
             bad.append(f"len={len(ev)} vs {len(want_ep)}")
         if list(ev.epochs) != want_ep:
